@@ -51,6 +51,24 @@ CHECKS = {
               "the model-side expansion of the popped pre-terminals (so any extra line on stdout is caught). A CLI part runs "
               "pcfg_guesser.py as a subprocess (stdin /dev/null or an open pipe) and compares raw stdout bytes. Exploration."),
         design='4/C09'),
+    'C12': dict(
+        technique="Hypothesis-generated event schedules over a harness-owned keyboard thread (real keypress() in a real thread, scripted input()), history oracle against the uninterrupted stream; plus repeated real-process runs under six stdin conditions",
+        text=("The schedule of the keyboard thread is owned by the harness: status, help, quit, EOF, lost-stdin, OSError, ValueError and "
+              "failing status prints are delivered at generated loop positions (between pops, after a guess, between two Markov "
+              "guesses, inside a restored Markov remainder) in histories of up to 3 runs, and the thread settles before the loop "
+              "continues, so each interleaving is reproducible. Only an explicit quit may shorten a run, it must stop at a "
+              "boundary with the state saved, resume must complete the stream, and status/help must not end the keyboard thread. "
+              "Real processes with stdin=/dev/null, closed, pipe at EOF, pipe with input then EOF, open pipe and a pty must write "
+              "the full stream. Exploration; pre-emptive races are sampled, not enumerated."),
+        design='4/C12'),
+    'C15': dict(
+        technique="Hypothesis property-based testing over (ruleset with OMEN model, every quit position) and generated multi-quit histories through the real main(); exact concatenation oracle against the uninterrupted stream",
+        text=("For generated rulesets with generated OMEN models a quit is requested after every guess index of the run (all positions "
+              "inside every Markov level), the session is resumed with --load and on a sample interrupted again; histories with up "
+              "to 4 quits are generated. With distinct probabilities the runs must concatenate to exactly the uninterrupted "
+              "stream (remainder first, nothing repeated or skipped, never replayed by a later cycle); with ties only guesses of "
+              "pre-terminals tied with a saved position may repeat. Exploration; every position of each generated run is enumerated."),
+        design='4/C15'),
 }
 
 NOT_YET = "check not built yet in this round (design exists in DESIGN.md section 4); not claimed until it runs"
